@@ -459,6 +459,154 @@ def gen_stdlib(k):
                    f'class {cls}( {base} ):', '  def construct( s ):', f'    super().construct( {args} )', ''])
   return src, cls
 
+# (f) one signal constrained by several components ----------------------------------------------
+HIER_FLOWS = ['default', 'simple', 'heutopo', 'mamba', 'unroll']
+
+def gen_hier(rng):
+  """a chain of 2-3 components (child C inside [P inside] Top); x = a port of C (whole / slice / struct field), written
+  by C.up_out; every level i has a block rd_i that reads exactly x (through its own path) and a block aux_i that does
+  not touch x; every level may declare value constraints on x: WR kind for rd_i (`U(rd_i) < WR(x)`: reader before the
+  writer, inverting the implicit pair; or `WR(x) < U(rd_i)`), RD kind for aux_i (`U(aux_i) < RD(x)` / `RD(x) < U(aux_i)`:
+  before / after every block that reads x). At least two levels declare the same kind. Returns (src, cls, spec)."""
+  u = next(_uid)
+  depth = rng.choice([2, 3, 3])
+  shape = rng.choice(['whole', 'whole', 'slice', 'field'])
+  names = ['C', 'P', 'Top'] if depth == 3 else ['C', 'Top']
+  w = 8 if shape == 'whole' else 4
+  xs = {'whole': 'out', 'slice': 'out[0:4]', 'field': 'out.a'}[shape]
+  inst = ['c', 'p']         # instance name of the level-k component inside the level-(k+1) component
+  def down(l, k):           # path prefix from the level-l component to the level-k component (k <= l)
+    return ''.join(inst[j] + '.' for j in range(l - 1, k - 1, -1))
+  xpath = lambda level: 's.' + down(level, 0) + xs
+  # choices
+  while True:
+    wr = [rng.choice(['before', 'before', 'after', None]) for _ in range(depth)]
+    rd = [rng.choice(['before', 'after', None, None]) for _ in range(depth)]
+    if sum(1 for k in wr if k) >= 2 or sum(1 for k in rd if k) >= 2: break
+  declared = []      # (typ, level, component class, block, 'before'|'after')
+  cls = lambda level: f'GdH{u}_{names[level]}'
+  out = ['from pymtl3 import *', '', '@bitstruct', f'class GdHS{u}:', '  b: Bits4', '  a: Bits4', '']
+  T = f'GdHS{u}' if shape == 'field' else 'Bits8'
+  for level in range(depth):
+    x = xpath(level)
+    out += [f'class {cls(level)}( Component ):', '  def construct( s ):', '    s.in_ = InPort( Bits8 )',
+            f'    s.seen = OutPort( Bits{w} )', '    s.auxo = OutPort( Bits8 )']
+    if level == 0:
+      out += [f'    s.out = OutPort( {T} )', '    @update', '    def up_out():',
+              f'      {x} @= ' + ('s.in_ + 1' if shape == 'whole' else 's.in_[0:4] + 1')]
+      if shape != 'whole':
+        out += ['    @update', '    def up_rest():', f'      s.{"out[4:8]" if shape == "slice" else "out.b"} @= s.in_[4:8]']
+    else:
+      sub = inst[level - 1]
+      out += [f'    s.{sub} = {cls(level - 1)}()', f'    s.{sub}.in_ //= s.in_']
+      if shape != 'whole' and rng.random() < 0.5:      # a reader of the whole port: related to x, not x itself
+        out += [f'    s.wh{level} = OutPort( {T} )', '    @update', f'    def up_whole_{level}():',
+                f'      s.wh{level} @= {x.rsplit(".out", 1)[0]}.out']
+    out += ['    @update', f'    def rd_{level}():', f'      s.seen @= {x}',
+            '    @update', f'    def aux_{level}():', '      s.auxo @= s.in_']
+    cons = []
+    if wr[level]:
+      a, b = f'U( rd_{level} )', f'WR( {x} )'
+      if wr[level] == 'after': a, b = b, a
+      cons.append(f'{a} < {b}' if rng.random() < 0.6 else f'{b} > {a}')
+      declared.append(['WR', level, cls(level), f'rd_{level}', wr[level]])
+    if rd[level]:
+      a, b = f'U( aux_{level} )', f'RD( {x} )'
+      if rd[level] == 'after': a, b = b, a
+      cons.append(f'{a} < {b}' if rng.random() < 0.6 else f'{b} > {a}')
+      declared.append(['RD', level, cls(level), f'aux_{level}', rd[level]])
+    if rd[level] != 'after' and rng.random() < 0.3:
+      cons.append(f'U( aux_{level} ) < U( rd_{level} )')
+    rng.shuffle(cons)
+    if cons and rng.random() < 0.5: out.append('    s.add_constraints( ' + ', '.join(cons) + ' )')
+    else: out += [f'    s.add_constraints( {c} )' for c in cons]
+    out += ['    pass', '']
+  spec = {'x': xpath(depth - 1), 'declared': declared, 'depth': depth, 'shape': shape,
+          'readers': [[f'rd_{l}', 's.' + down(depth - 1, l) + 'seen', wr[l] == 'before'] for l in range(depth)]}
+  return '\n'.join(out), cls(depth - 1), spec
+
+def hier_tables(top, spec):
+  """(declared, real): the value-constraint entries as (kind, repr(x), sign, block name) — from the generated
+  description, and from top._dsl.all_RD_U_constraints / all_WR_U_constraints"""
+  x = eval(spec['x'], {'s': top})
+  # `U(b) < WR(x)` is stored as (sign -1, b): WR(x) > U(b)
+  decl = {(typ, repr(x), -1 if how == 'before' else 1, blk) for (typ, _, _, blk, how) in spec['declared']}
+  real = set()
+  _, RD_U, WR_U, _ = top.get_all_explicit_constraints()
+  for typ, tab in (('RD', RD_U), ('WR', WR_U)):
+    for o, v in tab.items():
+      for (sign, b) in v: real.add((typ, repr(o), sign, b.__name__))
+  return decl, real
+
+def check_hier(ck, src, clsname, spec, lines, metas, verbose=False):
+  """model side like every other family (appended to lines/metas) + declared-vs-collected tables + the direct oracle on
+  the real schedules and simulated values of every pass group"""
+  import types
+  mod = load_source(ck.workdir, src, 'hier')
+  case = {'gendag': True, 'family': 'hier', 'top': clsname, 'source': src, 'hier': spec}
+  bad = 0
+  try:
+    cls = getattr(mod, clsname)
+    top = cls(); top.elaborate()
+    decl, real = hier_tables(top, spec)
+    if verbose: print('declared      :', sorted(decl)); print('collected     :', sorted(real))
+    if decl != real:
+      bad = 1
+      ck.disagreement('declared RD/WR(x)<>U entries≈all_RD_U/all_WR_U_constraints', case,
+                      {'declared_not_collected': sorted(decl - real)}, {'collected_not_declared': sorted(real - decl)})
+    ex = Extract(top)
+    lines.append(ex.request()); metas.append((ex, case, 'hier'))
+    stub = types.SimpleNamespace(blocks=[], nets={})
+    for flow in HIER_FLOWS:
+      try:
+        rs = rtlgen.RealSim(cls, stub, flow)
+      except Exception as e:
+        bad = 1
+        ck.violation('legal-constraints-rejected', {'flow': flow, 'family': 'hier'}, dict(case, flow=flow),
+                     {'outcome': type(e).__name__ + ': ' + str(e)[:300], 'oracle': 'the declared constraints are acyclic: the design must be scheduled'})
+        continue
+      t = rs.top
+      blks = list(t._dag.final_upblks)
+      rs.blk2id = {b: i for i, b in enumerate(blks)}; rs.unknown = []
+      entries = rs.schedule_entries()
+      if any(e[0] != 'b' for e in entries): raise InfraError(f'hier: unexpected schedule entries {entries}')
+      order = [e[1] for e in entries]
+      pos = {i: k for k, i in enumerate(order)}
+      byname = {b.__name__: rs.blk2id[b] for b in blks}
+      tabs = {'RD': [t._dsl.all_upblk_reads, t._dag.genblk_reads], 'WR': [t._dsl.all_upblk_writes, t._dag.genblk_writes]}
+      viol = []
+      for (typ, level, comp, bname, how) in spec['declared']:
+        b = byname[bname]
+        S = [rs.blk2id[blk] for tab in tabs[typ] for blk, objs in tab.items() if any(repr(o) == spec['x'] for o in objs) and rs.blk2id[blk] != b]   # signals are values after the sim passes: match by name
+        if typ == 'WR' and not S: raise InfraError(f'hier: no block writes {spec["x"]}')
+        for o in S:
+          if b not in pos or o not in pos or not (pos[b] < pos[o] if how == 'before' else pos[o] < pos[b]):
+            viol.append({'declared_in': comp, 'constraint': (f'U({bname}) < {typ}({spec["x"]})' if how == 'before' else f'{typ}({spec["x"]}) < U({bname})'),
+                         'other_block': blks[o].__name__})
+      sched_names = [blks[i].__name__ for i in order]
+      if verbose: print(f'{flow:8s} schedule:', sched_names)
+      if viol:
+        bad = 1
+        ck.violation('declared-value-constraint-order', {'flow': flow}, dict(case, flow=flow),
+                     {'schedule': sched_names, 'violated': viol,
+                      'oracle': 'every declared U(b) < WR/RD(x) puts b before every other block that writes/reads exactly x (after it for WR/RD(x) < U(b)), whichever component declared it'})
+      # simulated values: readers declared before the writer see the value of the previous evaluation
+      t.in_ @= 5; t.sim_eval_combinational(); t.in_ @= 7; t.sim_eval_combinational()
+      got = {spec['x']: int(eval(spec['x'], {'s': t}))}; want = {spec['x']: 8}
+      for (bname, path, before) in spec['readers']:
+        got[path] = int(eval(path, {'s': t})); want[path] = 6 if before else 8
+      if verbose: print(f'{flow:8s} values  :', got, 'expected', want)
+      if got != want:
+        bad = 1
+        ck.violation('declared-value-constraint-value', {'flow': flow}, dict(case, flow=flow),
+                     {'values': got, 'expected': want, 'schedule': sched_names,
+                      'oracle': 'in_=5 then in_=7, one combinational evaluation each: x = in_+1 = 8; a reader constrained before the writer of x still sees 6, every other reader sees 8'})
+    ck.hist('gendag_hier_shape', f"{spec['shape']}/{spec['depth']}")
+    ck.hist('gendag_hier_same_kind_declarers', max(sum(1 for d in spec['declared'] if d[0] == k) for k in ('RD', 'WR')))
+  finally:
+    sys.modules.pop(mod.__name__, None)
+  return bad
+
 # ---------------------------------------------------------------------------------------------
 # one design: elaborate, extract, oracle, model
 # ---------------------------------------------------------------------------------------------
@@ -551,6 +699,10 @@ def run(ck):
       continue
     ex, line = r
     lines.append(line); metas.append((ex, {'gendag': True, 'family': fam, 'top': cls, 'source': src}, fam))
+  # (f) several components constraining one signal
+  for _ in range(25 if quick else 300):
+    src, cls, spec = gen_hier(rng)
+    check_hier(ck, src, cls, spec, lines, metas)
   for fam in {f for (_, _, f) in todo}:
     tot = sum(1 for (_, _, f) in todo if f == fam)
     if tot >= 5 and len(rejected.get(fam, [])) * 2 > tot and fam != 'shape':
@@ -571,6 +723,12 @@ def replay(ck, data):
   src, cls = case.get('source'), case.get('top')
   if not src or not cls:
     print('no source recorded in this replay'); return 1
+  if case.get('hier'):
+    lines, metas = [], []
+    n0 = len(ck.violations) + len(ck.breaks)
+    bad = check_hier(ck, src, cls, case['hier'], lines, metas, verbose=True)
+    for v in ck.violations: print('VIOLATION', v.kind, v.signature, str(v.detail)[:600])
+    return 1 if (bad or len(ck.violations) + len(ck.breaks) > n0) else 0
   r = prepare(ck, src, cls, 'replay')
   if r[0] == 'rejected':
     print('elaboration raised', r[1]); return 1
